@@ -1,9 +1,11 @@
 """End-to-end correspondence: wall polygons -> composed Gallina model (Model/Full.v) vs
-/repo's from_polygon ... collect_energy_receiver_mono.  Only the Nusselt integrator's values
-(coincident patch pairs) are handed to the model as data; everything else -- tiling, centroids,
-areas, patch visibility, pair list, Stokes form factors, wall frames of the direction sets, point
-visibility, solid-angle shares, baked factors, initial energy, exchange, receiver collection --
-is recomputed by the model from the polygons."""
+/repo's from_polygon ... collect_energy_receiver_mono.  No form-factor value computed by /repo is
+handed to the model: tiling, centroids, areas, patch visibility, pair list, form factors (Stokes
+contour integral AND the Nusselt analogue for coincident pairs, Model/Nusselt.v, nsamples=64),
+wall frames of the direction sets, point visibility, solid-angle shares, baked factors, initial
+energy, exchange, receiver collection are all recomputed by the model from the polygons; /repo's
+values are only compared with.  Inputs of the model besides the polygons: BRDF tables and indices,
+air attenuation, the reference direction sets and the literal tolerances of the code."""
 import numpy as np
 import pyfar as pf
 
@@ -13,6 +15,11 @@ import pipeline as P
 from sparrowpy import geometry as G
 
 THR, EPS, ETA, THRES, CUT = 1e-10, 1e-6, 1e-6, 1e-6, 0.0
+# the three literals of the Nusselt branch: norm(cross(..)) > 1e-6, dot(..) >= 1e-6 (nusselt_analog),
+# abs(x[-1]-x[0]) < 1e-6 (_poly_estimation_Lagrange)
+T_SEG, T_DOT, T_LAG = 1e-6, 1e-6, 1e-6
+# form factors are compared at the common relative 1e-9 (zeros exact): the Nusselt branch replaces
+# np.linalg.inv by the Lagrange closed form (observed deviation of that branch in C05: <= 1e-13)
 
 
 def room_tokens(cfg, radi, din, dout):
@@ -30,21 +37,15 @@ def room_tokens(cfg, radi, din, dout):
     tok.arr(np.array(radi._brdf_index), "i")
     tok.arr(radi._air_attenuation)
     tok.i(radi.n_bins)
-    # Nusselt values: the implementation's entries for coincident pairs (not modelled)
-    n = radi.n_patches
-    nus = np.zeros((n, n))
-    pts = radi.patches_points
-    for (a, b) in radi._visible_patches:
-        if G._coincidence_check(pts[b], pts[a]):
-            nus[a, b] = radi.form_factors[a, b]
-    tok.arr(nus)
-    for x in (THR, EPS, ETA, THRES, CUT):
+    for x in (THR, EPS, ETA, THRES, CUT, T_SEG, T_DOT, T_LAG):
         tok.f(x)
     return tok
 
 
-def full_case(cfg, src, recs, c, dt, dur, K, direct=True):
-    """returns (mismatches, max_ulp, rejected)"""
+def full_case(cfg, src, recs, c, dt, dur, K, direct=True, info=None):
+    """returns (mismatches, max_ulp, rejected); [info] (a dict) receives the number of visible pairs,
+    how many of them took the Nusselt branch (computed by the model), and the largest relative
+    deviation of the model's form factors from /repo's on each branch"""
     radi = S.build(cfg)
     din, dout = S.directions(cfg)
     impl = P.impl_pipeline(radi, src, c, dt, dur, K, recs, direct=direct)
@@ -79,6 +80,21 @@ def full_case(cfg, src, recs, c, dt, dur, K, direct=True):
     vis = ints(nxt("q_room_vis"), (n, n)).astype(bool)
     F = floats(nxt("q_room_ff"), (n, n))
     dirs = floats(nxt("q_room_dirs"))
+    if info is not None and F.shape == np.asarray(radi._form_factors).shape:
+        pts = radi.patches_points
+        Fi = np.asarray(radi._form_factors, dtype=float)
+        info["visible_pairs"] = len(radi._visible_patches)
+        info["nusselt_pairs"] = 0
+        info["nusselt_max_rel"] = 0.0
+        info["stokes_max_rel"] = 0.0
+        for (a, b) in radi._visible_patches:
+            coinc = bool(G._coincidence_check(pts[b], pts[a]))
+            dev = abs(Fi[a, b] - F[a, b]) / max(abs(Fi[a, b]), 1e-300)
+            if coinc:
+                info["nusselt_pairs"] += 1
+                info["nusselt_max_rel"] = max(info["nusselt_max_rel"], float(dev))
+            else:
+                info["stokes_max_rel"] = max(info["stokes_max_rel"], float(dev))
     ins = np.array([s.cartesian for s in radi._brdf_incoming_directions])
     outs = np.array([s.cartesian for s in radi._brdf_outgoing_directions])
     dm = np.concatenate([ins.reshape(-1), outs.reshape(-1)])
